@@ -26,8 +26,8 @@ class C03(common.ModelProperty):
     title = "every mutation has exactly its documented effect (frame property)"
     max_steps = 80
     budget = {
-        "quick": {"runs": 30000, "wall_cap_s": 600},
-        "thorough": {"runs": 3000000, "wall_cap_s": 3000},
+        "quick": {"runs": 100000, "wall_cap_s": 600},
+        "thorough": {"runs": 4000000, "wall_cap_s": 5400},
     }
     rule = (
         "one evaluation = one seeded history over the structure and explicit-builder API "
